@@ -131,6 +131,20 @@ func (r *exactRun) step(toks []string) (string, string) {
 		}
 		synctest.Wait()
 		return "lookup " + showEntries(r.c.derIdx.Lookup(toks[1]), all), line
+	case toks[0] == "lateindex" && len(toks) == 1:
+		if r.c.der == nil || r.paused || r.c.lateIdx != nil {
+			return "bad-op", line
+		}
+		synctest.Wait()
+		// on the populated collection; 0, 1 or several keys per object (Lean: idxBackfill, then idxUpdateG)
+		r.c.lateIdx = krt.UnnamedIndex[string, Out](r.c.top, func(o Out) []string { return outFetched(o.Val) })
+		return "ok", line
+	case toks[0] == "flookup" && len(toks) == 2:
+		if r.c.lateIdx == nil {
+			return "flookup no-index", line
+		}
+		synctest.Wait()
+		return "flookup " + showEntries(r.c.lateIdx.Lookup(toks[1]), all), line
 	}
 	return "bad-op", line
 }
@@ -175,6 +189,7 @@ func genExactCase(r *wire.Rng, n int, w *wire.Out) {
 	}
 	w.Line("start")
 	nops := 4 + r.Intn(36)
+	late := false
 	pausedLeft := 0
 	nblk := 0
 	// The model has the full scan of changedInputKeys, not its reverse-index pre-filter, which recomputes a
@@ -185,7 +200,7 @@ func genExactCase(r *wire.Rng, n int, w *wire.Out) {
 	for _, f := range t.Fetches {
 		for _, a := range f {
 			switch a.Kind {
-			case "key", "keys", "objName", "nsIndex", "valIndex":
+			case "key", "keys", "objName", "nsIndex", "valIndex", "outIndex":
 				canHold = false
 			}
 		}
@@ -317,7 +332,15 @@ func genExactCase(r *wire.Rng, n int, w *wire.Out) {
 				w.Line(withDuplicate(r, toks, false, false)...)
 			}
 		default:
-			w.Line("lookup", wire.Pick(r, nss))
+			switch {
+			case !late && r.Chance(35, 100):
+				late = true
+				w.Line("lateindex")
+			case late && r.Chance(60, 100):
+				w.Line("flookup", wire.Pick(r, nss)+"/"+wire.Pick(r, snames))
+			default:
+				w.Line("lookup", wire.Pick(r, nss))
+			}
 		}
 	}
 	if pausedLeft > 0 {
@@ -325,5 +348,12 @@ func genExactCase(r *wire.Rng, n int, w *wire.Out) {
 	}
 	for _, ns := range nss {
 		w.Line("lookup", ns)
+	}
+	if late {
+		for _, ns := range nss {
+			for _, nm := range snames {
+				w.Line("flookup", ns+"/"+nm)
+			}
+		}
 	}
 }
